@@ -6,6 +6,7 @@ several (worker count, image model, chunk->worker schedule) configurations per s
 from __future__ import annotations
 
 import itertools
+import os
 
 import numpy as np
 
@@ -27,7 +28,7 @@ REAL_VS_STUB = {"real": ["gameplay.*", "run.best_states.get_best_exploitability"
                 "seams": ["chunk->worker scheduler", "process images", "gameplay.time (simulated clock)"]}
 ASSUMPTIONS = ["starting knowledge contains the minimal information", "n <= 4 (all subsets up to k)",
                "SimPool models process pools at task granularity; worker death is not injected"]
-PROBES = ["one_game_object_reused_across_searches", "search_retried_after_interrupt", "best_states_on_a_stepped_environment", "chunk_with_2plus_tasks", "worker_ran_2plus_chunks", "more_workers_than_chunks",
+PROBES = ["more_than_1000_reveal_sets", "one_game_object_reused_across_searches", "search_retried_after_interrupt", "best_states_on_a_stepped_environment", "chunk_with_2plus_tasks", "worker_ran_2plus_chunks", "more_workers_than_chunks",
           "starting_knowledge_beyond_minimal", "best_states", "meta_game", "sampled_several_games",
           "calibrated_against_real_pool", "n4"]
 TIERS = {
@@ -97,6 +98,16 @@ def run(sim: Sim) -> None:
     gap = GAP_FUNCTIONS[gap_name]
     explorable = games.explorable_ids(n)
     what = sim.pick_weighted([("sequences", 4), ("sample", 2), ("best_states", 3), ("meta", 2)], "call")
+    big = sim.choose(25 if thorough else 90, "big-search") == 1 or bool(os.environ.get("VERIF_FORCE_LARGE"))
+    if big:
+        # rare: more than a thousand reveal sets (the whole 4-player lattice, or 5 players up to size 3)
+        n = sim.pick([4, 5], "big-n")
+        what = sim.pick(["sequences", "sample"], "big-call")
+        comp_name = sim.pick(["superadditive_cached"] + (["sam_apx_1"] if cls == "SAM" else []), "big-computer")
+        gap_name = sim.pick(["l1_norm", "linf_norm", "exploitability"], "big-gap")
+        gap = GAP_FUNCTIONS[gap_name]
+        explorable = games.explorable_ids(n)
+        sim.probe("more_than_1000_reveal_sets")
     extras = sim.subset(explorable, "start-extras", 1, 5) if what in ("sequences", "sample", "best_states") else []
     if len(extras) == len(explorable):
         extras = extras[:-1]
@@ -107,10 +118,18 @@ def run(sim: Sim) -> None:
     kmax = len(unknown) if n == 3 else (3 if thorough or sim.flip(1, 4, "k3") else 2)
     k = sim.choose(min(kmax, len(unknown)) + 1, "k")
     ngames = 1 + sim.choose(4, "n-games")
+    if big:
+        extras = []
+        K0 = games.minimal_ids(n)
+        unknown = list(explorable)
+        k = len(unknown) if n == 4 else 3
+        ngames = 2
     values = [games.draw_game(sim, n, cls)[0] for _ in range(ngames)]
     ctx = {"n": n, "class": cls, "computer": comp_name, "gap": gap_name, "call": what, "start_extras": extras, "k": k}
     sim.config.update(ctx)
     configs = [(1 + sim.choose(16, "processes"), sim.pick(["fork", "fresh"], "image")) for _ in range(2 + sim.choose(2, "n-configs"))]
+    if big:
+        configs = [(1 + sim.choose(3, "big-processes"), sim.pick(["fork", "fresh"], "image")) for _ in range(2)]
     prelude.warm_process(sim)
     cache: dict = {}
     saved_time = gameplay.time
